@@ -67,6 +67,10 @@ def sparql(u, direction, placement, pred):
         select = "# a comment line\n" + select
     elif extra == "lowercase":
         select = select.replace("SELECT", "select")
+    elif extra == "varnames":
+        # variables named like prefixes rdflib binds by default (a variable name is just a name)
+        out_ = (f"{select} WHERE {{ {values} {pattern} }}" if where == "inside" else f"{select} WHERE {{ {pattern} }} {values}")
+        return out_.replace("?s", "?\x00").replace("?o", "?org").replace("?\x00", "?owl")
     if where == "inside":
         return f"{select} WHERE {{ {values} {pattern} }}"
     if where == "insideafter":   # inside the group, but written after the triple pattern
@@ -112,8 +116,16 @@ def bindings_from_json(text, free):
 
 def ask(ci, transport, query, free):
     conv, graph, proc, flask_client, fast_client = service(ci)
+    if "?owl" in query:
+        free = {"s": "owl", "o": "org"}[free]
     if transport == "graph":
         rows = list(graph.query(query, processor=proc))
+        return {str(getattr(r, free)) for r in rows}, len(rows)
+    if transport == "graph-prepared":
+        # the query handed in as a prepared Query object instead of text
+        from rdflib.plugins.sparql import prepareQuery
+
+        rows = list(graph.query(prepareQuery(query), processor=proc))
         return {str(getattr(r, free)) for r in rows}, len(rows)
     if transport == "flask-get":
         r = flask_client.get("/sparql", query_string={"query": query}, headers={"accept": "application/json"})
@@ -135,7 +147,7 @@ def ask(ci, transport, query, free):
     return bindings_from_json(text, free)
 
 
-TRANSPORTS = ["graph", "flask-get", "flask-post", "flask-post-charset", "flask-post-multipart", "fastapi-get"]
+TRANSPORTS = ["graph", "graph-prepared", "flask-get", "flask-post", "flask-post-charset", "flask-post-multipart", "fastapi-get"]
 
 
 def check_query(ci, u, direction, placement, pred, model=None, ctx=None):
@@ -358,8 +370,42 @@ def check_predicates(ctx=None):
     return fails
 
 
+def check_query_kwargs(ci, ctx=None):
+    """The documented entry point is Graph.query: the same query text may be asked again on the same graph / processor with other
+    initNs (the prefixed name in VALUES then denotes another URI) or with the variable bound through initBindings."""
+    import rdflib
+
+    fails = []
+    conv, graph, proc, _, _ = service(ci)
+    model = Model(CONVERTERS[ci], ":")
+    ups = [u for u in sorted(model.all_uri_prefixes()) if not (set(u) & INVALID)][:4]
+    for bound, free in (("s", "o"), ("o", "s")):
+        # (the predicate is written as an IRI: binding a second prefix to the owl namespace would, in rdflib, unbind "owl")
+        text = f"SELECT ?s ?o WHERE {{ VALUES ?{bound} {{ src:1 }} ?s <{OWL_SAMEAS}> ?o }}"
+        plain = f"SELECT ?s ?o WHERE {{ ?s <{OWL_SAMEAS}> ?o }}"
+        for a, b in it.permutations(ups, 2):
+            for up in (a, b, a):
+                want = expected(model, up + "1", OWL_SAMEAS)
+                for label, run in (("initNs", lambda: graph.query(text, processor=proc, initNs={"src": rdflib.Namespace(up)})),
+                                   ("initBindings", lambda: graph.query(plain, processor=proc, initBindings={bound: rdflib.URIRef(up + "1")}))):
+                    try:
+                        got = {str(getattr(r, free)) for r in run()}
+                    except Exception as e:  # noqa
+                        fails.append((f"sparql/graph-{label}/raises", f"converter {ci}: {text if label == 'initNs' else plain} with {label} for {up + '1'!r}: {type(e).__name__}: {str(e)[:80]}"))
+                        continue
+                    if ctx is not None:
+                        ctx.count("transitions")
+                        ctx.count("queries_with_keyword_arguments")
+                    if got != want:
+                        fails.append((f"sparql/graph-{label}/answer-differs", f"converter {ci}: {text if label == 'initNs' else plain} with {label} for {up + '1'!r} (asked after the same text for another URI): {sorted(got)}, expected {sorted(want)}"))
+            if fails:
+                return fails
+    return fails
+
+
 def units(tier, seed):
     us = [{"kind": "predicates"}]
+    us += [{"kind": "kwargs", "conv": ci} for ci in range(len(CONVERTERS))]
     for ci in range(len(CONVERTERS)):
         U = uris_for(Model(CONVERTERS[ci], ":"))
         for ch in chunks(U, 4):
@@ -385,13 +431,16 @@ def run_unit(unit, ctx):
         ctx.state(hash(("svc", ci)))
         for u in unit["uris"]:
             for direction in ("s", "o"):
-                for placement in ("inside", "after", "insideafter", "inside+filter", "after+filter", "after+distinct", "after+prefixed", "inside+compact-prologue", "after+comment", "inside+lowercase"):
+                for placement in ("inside", "after", "insideafter", "inside+filter", "after+filter", "after+distinct", "after+prefixed", "inside+compact-prologue", "after+comment", "inside+lowercase", "inside+varnames", "after+varnames"):
                     for pred in (OWL_SAMEAS, OTHER_PRED):
                         fails = check_query(ci, u, direction, placement, pred, ctx=ctx)
                         case = {"kind": "sparql", "conv": ci, "uri": u, "direction": direction, "placement": placement, "pred": pred}
                         for sig, msg in fails[:2]:
                             ctx.violation("C18/" + sig, msg, case)
         ctx.sample({"kind": "sparql", "conv": ci, "query": sparql(unit["uris"][0], "s", "after", OWL_SAMEAS)})
+    elif k == "kwargs":
+        for sig, msg in check_query_kwargs(unit["conv"], ctx)[:2]:
+            ctx.violation("C18/" + sig, msg, {"kind": "kwargs", "conv": unit["conv"]})
     elif k == "predicates":
         for sig, msg in check_predicates(ctx)[:2]:
             ctx.violation("C18/" + sig, msg, {"kind": "predicates"})
@@ -486,24 +535,9 @@ def replay(case):
         f, _ = check_header(tuple(tuple(e) for e in case["elements"]), tuple(case["ows"]), case.get("param"))
         if case.get("param"):
             f = [(s_.replace("accept/", "accept/with-media-type-parameter/"), m_) for s_, m_ in f]
-    elif k == "accept4":
-        # thorough: all headers of 4 distinct media types x q in {absent, 0.5, 0.9} x 2 whitespace patterns
-        kinds4 = [(t, q) for t in TYPES for q in (None, "0.5", "0.9")]
-        t0 = TYPES[unit["first"]]
-        for q0 in (None, "0.5", "0.9"):
-            for rest in it.product(kinds4, repeat=3):
-                combo = ((t0, q0),) + rest
-                if len({t for t, _ in combo}) < 4:
-                    continue
-                for ows in (("", "", ""), (" ", " ", " ")):
-                    fails, header = check_header(combo, ows)
-                    ctx.count("headers")
-                    ctx.count("headers_with_4_elements")
-                    ctx.count("evaluations")
-                    if fails:
-                        ctx.violation("C18/" + fails[0][0], fails[0][1], {"kind": "accept", "elements": [list(e) for e in combo], "ows": list(ows)})
-                    else:
-                        ctx.count("validated")
+    elif k == "kwargs":
+        _SERVICES.pop(case["conv"], None)
+        f = check_query_kwargs(case["conv"])
     elif k == "accept-web":
         f = check_header_via_web(case["header"])
     else:
